@@ -9,33 +9,37 @@ VERIF = gen.VERIF
 REPLAY = os.path.join(VERIF, 'replay')
 
 PROP_ORACLES = {
-    'C01': ['tree.memory', 'tree.altroot', 'tree.overlay'],
-    'C03': ['tree.memory', 'tree.altroot', 'tree.overlay'],
-    'C04': ['reader', 'writer', 'tree.memory', 'transfer'],
-    'C05': ['tree.memory', 'tree.altroot', 'tree.overlay'],
+    'C01': ['tree.memory', 'tree.altroot', 'tree.overlay', 'tree.physical', 'union.overlay'],
+    'C03': ['tree.memory', 'tree.altroot', 'tree.overlay', 'union.overlay'],
+    'C04': ['reader', 'writer', 'tree.memory', 'tree.physical', 'union.overlay', 'transfer'],
+    'C05': ['tree.memory', 'tree.altroot', 'tree.overlay', 'tree.physical', 'union.overlay'],
     'C06': ['paths'],
-    'C07': ['tree.altroot', 'composite.altroot', 'transfer'],
+    'C07': ['tree.altroot', 'composite.altroot', 'tree.physical', 'transfer'],
     'C08': ['overlay'],
-    'C09': ['tree.overlay', 'overlay'],
-    'C10': ['overlay'],
-    'C11': ['composite.memory', 'composite.altroot', 'transfer'],
+    'C09': ['tree.overlay', 'union.overlay', 'overlay'],
+    'C10': ['overlay', 'union.overlay'],
+    'C11': ['composite.memory', 'composite.altroot', 'composite.physical', 'transfer', 'copydir'],
     'C12': ['paths', 'tree.memory', 'tree.altroot'],
-    'C13': ['paths', 'reader', 'writer', 'tree.memory', 'tree.altroot', 'tree.overlay', 'overlay', 'transfer'],
+    'C13': ['paths', 'reader', 'writer', 'tree.memory', 'tree.altroot', 'tree.overlay', 'tree.physical', 'union.overlay', 'overlay', 'transfer'],
     'C14': ['reader', 'writer'],
     'C18': [],
     'C19': [],
-    'C20': ['composite.memory', 'transfer'],
+    'C20': ['composite.memory', 'transfer', 'copydir'],
 }
 BOUNDS = {
     'paths': 'all join arguments over {/ . a é} up to length 5 (deep: 6) x 5 bases, plus parent/filename/extension/root of every result',
     'reader': 'contents of length 0,1,3 x all scripts of 2 (deep: 3) read/seek calls from 17 operations incl. extreme offsets',
     'writer': 'create/append sessions x all scripts of 3 (deep: 4) write/seek/flush calls from 9 operations',
-    'tree.memory': 'all sequences of 2 (deep: 3) primitive operations over the 9-path universe (incl. prefix siblings a/ab/a.b, a multi-byte directory with a child, a dot-file) on MemoryFS, every observation compared with the abstract tree after every step',
+    'tree.memory': 'all sequences of 2 (deep: 3) primitive operations over the 10-path universe (incl. prefix siblings a/ab/a.b, a multi-byte directory with a child, a dot-file, a name containing a backslash) on MemoryFS, every observation compared with the abstract tree after every step',
     'tree.altroot': 'same sequences on AltrootFS over MemoryFS rooted at /r, plus: nothing outside /r changes',
     'tree.overlay': 'same sequences (length 2) on OverlayFS over two MemoryFS layers with an empty lower layer',
     'composite.memory': 'sequences of 2 operations incl. create_dir_all / remove_dir_all on MemoryFS',
     'composite.altroot': 'sequences of 2 operations incl. create_dir_all / remove_dir_all on AltrootFS',
+    'tree.physical': 'same sequences (length 2) on PhysicalFS over a fresh temporary directory, plus: nothing next to the root directory changes',
+    'composite.physical': 'sequences of 2 operations incl. create_dir_all / remove_dir_all on PhysicalFS',
+    'union.overlay': 'OverlayFS over three layers with pre-populated lower layers (shadowed file, split directory) compared with ONE plain tree initialised to the union, all sequences of 2 (deep: 3) operations outside the input classes of the known findings',
     'overlay': 'all sequences of 1 (deep: 2) overlay operations (13 kinds x 5 paths) over 2 and 3 layers with pre-populated lower layers: lower layers unchanged, observers change nothing, bookkeeping hidden',
+    'copydir': 'copy_dir / move_dir of 3 source trees (incl. names repeating the source directory name, empty and nested directories, binary and dot files) x same/other filesystem x existing destination: structure, bytes and returned count',
     'transfer': 'copy_file / move_file over 4 contents (empty, 1 byte, non-UTF-8, 9000 bytes) x same/other filesystem x altroot source x existing destination',
 }
 
